@@ -861,7 +861,9 @@ class Driver:
                 needed = self.assume(st.fork(), acc, is_and)
                 skip = self.assume(st, acc, not is_and)
                 for s2 in skip:
-                    results.append((s2, (False if is_and else True)))
+                    # Python returns the deciding OPERAND (`monitors or self.monitors` is the dictionary, not True)
+                    objval = isinstance(acc, (Opq, dict, list, str, ListObj, FieldObj, SeqSym, ArrSym))
+                    results.append((s2, acc if objval else (False if is_and else True)))
                 for s2 in needed:
                     for s3, v in self.evalf(node.values[i], s2, func):
                         rec(i + 1, s3, v)
